@@ -7,6 +7,7 @@ From CFDP Require Import Base.Prelude Model.Segments.
 From CFDP Require Import Model.Checksum.
 From CFDP Require Import Model.Path.
 From CFDP Require Import Model.Udp.
+From CFDP Require Import Model.FsModel.
 
 Extraction Language OCaml.
 Extraction "model.ml"
@@ -15,4 +16,6 @@ Extraction "model.ml"
   Checksum.file_checksum
   Path.path_components Path.path_strip_prefix Path.path_native Path.path_native2
   Udp.udp_recv Udp.udp_initial_buffer
+  FsModel.fs_request FsModel.fs_resp_code FsModel.fs_tree_of FsModel.fs_entries
+  FsModel.fs_process_request FsModel.fs_exec_requests
   .
